@@ -84,7 +84,7 @@ def live_spec_devs(check, vh, known, clauses):
     with open(docs, "w") as f:
         for n in names:
             f.write(json.dumps(json.load(open(known[n]["witness"]))["doc"]) + "\n")
-    fails = run_spec(check, vh, "witnessrun", ["-bases", 1, "-edits", 1, "-raw"] if "C02" in clauses else ["-bases", 1, "-edits", 1], clauses, names, shards=1, docs_file=docs)
+    fails = run_spec(check, vh, "witnessrun", ["-bases", -1, "-raw"] if "C02" in clauses else ["-bases", -1], clauses, names, shards=1, docs_file=docs)
     live = {}
     for k, n in enumerate(names):
         if any(f["input"].get("edit") == "(given)" and f.get("dev") in (n, "combined") for f in fails):
